@@ -17,9 +17,22 @@ from . import analysis
 rule("C19.a", "every interval-membership test over time points is half open (>= start and < end)", floor=4, props=["C19", "C08", "C20"])
 rule("C19.b", "the overlap guard precedes the assignment into the grid (overlapping intervals are rejected, not overwritten)", floor=1)
 rule("C19.c", "a sub-grid takes each per-step attribute from the same attribute of the reference grid through one selector; the "
-              "coarse grid is built from consecutive pairs of one date range", floor=8)
+              "coarse grid is built from consecutive pairs of one date range", floor=8, props=["C19", "C12", "C13"])
 rule("C19.e", "a user date that is order-compared with grid time points has passed a zone normaliser (tz_localize / Timestamp(tz=) / "
               "prep_date_dict) or derives from the grid itself", floor=6, props=["C19", "C20", "C15"])
+
+ZONE_CASE = "a zone is attached (tz_localize(zone) / replace(tzinfo=)) only to a value that is known to be naive at that point - under a " \
+            "test `<the same value>.tzinfo is None` or right after parsing a zone-free string; an aware value is compared as the " \
+            "instant it is (or converted with tz_convert), never stripped and re-read in another zone"
+rule("C19.g", "time zone case analysis of interval data, asset windows and grids: " + ZONE_CASE, floor=3)
+rule("C15.g", "time zone case analysis of the fix-window date: " + ZONE_CASE, floor=1)
+rule("C20.h", "time zone case analysis of order start / end: " + ZONE_CASE, floor=2)
+rule("C11.i", "time zone case analysis of dates read back from JSON: " + ZONE_CASE, floor=1)
+NO_STRIP = "a date that reaches the zone case analysis has not passed a conversion that silently drops its zone (.values on a frame " \
+           "column, a datetime64 cast, tz_localize(None)) - neither in the function nor where the constructor stored it"
+rule("C19.h", "interval data and asset windows: " + NO_STRIP, floor=2)
+rule("C15.h", "fix-window date: " + NO_STRIP, floor=1)
+rule("C20.i", "orders: " + NO_STRIP, floor=1)
 
 NORMALISERS = {"tz_localize", "tz_convert", "prep_date_dict"}
 GRID_ATTRS = {"timepoints", "start", "end", "tz"}
@@ -42,9 +55,145 @@ def _norm_cmp(c: ast.Compare):
     return out
 
 
-@analysis("intervals", ["C19.a", "C19.b", "C19.c", "C19.e"])
+def _strip_ts(e):
+    """pd.to_datetime(x) / pd.Timestamp(x) -> x (both keep the zone state of x)."""
+    while isinstance(e, ast.Call) and au.method_name(e) in ("to_datetime", "Timestamp") and len(e.args) == 1 and not e.keywords:
+        e = e.args[0]
+    return e
+
+
+def _naive_tests(test):
+    """values `test` proves naive when it is true: conjuncts `<v>.tzinfo is None` / `<v>.tz is None`."""
+    out = []
+    for c in (au.flatten_boolop(test, ast.And) if isinstance(test, ast.BoolOp) and isinstance(test.op, ast.And) else [test]):
+        nt = au.none_test(c)
+        if nt is not None and nt[1] and isinstance(nt[0], ast.Attribute) and nt[0].attr in ("tzinfo", "tz"):
+            out.append(au.U(_strip_ts(nt[0].value)))
+    return out
+
+
+def _strips_zone(x) -> str:
+    if isinstance(x, ast.Attribute) and x.attr == "values" and not (isinstance(x.value, ast.Call) and au.method_name(x.value) == "values"):
+        return ".values (a zone-aware column becomes naive UTC)"
+    if isinstance(x, ast.Call):
+        m = au.method_name(x)
+        if m == "tz_localize" and x.args and au.is_none(x.args[0]):
+            return "tz_localize(None)"
+        if m == "replace" and au.kwarg(x, "tzinfo") is not None and au.is_none(au.kwarg(x, "tzinfo")):
+            return "replace(tzinfo=None)"
+        if m == "datetime64":
+            return "np.datetime64(..)"
+        dts = [k.value for k in x.keywords if k.arg == "dtype"] + (list(x.args[:1]) if m == "astype" else [])
+        if any("datetime64" in (au.const_str(d) or au.U(d)) or (au.const_str(d) or "").startswith("M8") for d in dts):
+            return "a cast to datetime64"
+    return ""
+
+
+def _stored_strips(ctx, cls, attr):
+    """zone-stripping conversions on the way into self.<attr> in the constructors of the class (and its bases)."""
+    out = []
+    for c in ctx.p.mro(cls):
+        init = c.methods.get("__init__")
+        if init is None:
+            continue
+        org = ctx.origins(init)
+        for st in au.walk_stmts(init.body):
+            if isinstance(st, ast.Assign) and any(au.path(t) == "self." + attr for t in st.targets):
+                for x in org.nodes(st.value, st):
+                    why = _strips_zone(x)
+                    if why:
+                        out.append((init, x, why))
+    return out
+
+
+def _zone_cases(ctx):
+    p = ctx.p
+    counts = {}
+    for fn in sorted(p.all_functions(), key=lambda f: f.qualname):
+        if fn.parent is not None:
+            continue
+        rid = "C19.g"
+        if fn.cls is not None and fn.cls.name == "OrderBook":
+            rid = "C20.h"
+        elif fn.module.name.endswith("serialization"):
+            rid = "C11.i"
+        ff = None
+        for st in au.walk_stmts(fn.body):
+            for n in au.walk_own(st):
+                if not isinstance(n, ast.Call) or not isinstance(n.func, ast.Attribute):
+                    continue
+                m = n.func.attr
+                zone = None
+                if m == "tz_localize" and (n.args or n.keywords):
+                    zone = n.args[0] if n.args else n.keywords[0].value
+                elif m == "replace" and au.kwarg(n, "tzinfo") is not None:
+                    zone = au.kwarg(n, "tzinfo")
+                if zone is None or au.is_none(zone):
+                    continue
+                recv = n.func.value
+                rtxt = au.U(_strip_ts(recv))
+                my_rid = rid
+                if rid == "C19.g" and any(isinstance(a, ast.If) and "fix_time_window" in au.names_in(a.test) for a in p.ancestors(n)):
+                    my_rid = "C15.g"
+                # (i) under a naive test on the same value (no re-definition of the value between test and call is possible
+                #     inside one statement; for a block: the receiver's base name is not assigned between the `if` and the call)
+                proven = None
+                child = n
+                for a in p.ancestors(n):
+                    if isinstance(a, ast.If) and any(child is x or any(child is y for y in ast.walk(x)) for x in a.body):
+                        if rtxt in _naive_tests(a.test):
+                            base = au.base_name(_strip_ts(recv))
+                            redefined = any(isinstance(s2, (ast.Assign, ast.AugAssign)) and s2.lineno < st.lineno and
+                                            base in {t for t0 in au.stmt_targets(s2) for t in au.target_names(t0)}
+                                            for s2 in au.walk_stmts(a.body))
+                            if not redefined:
+                                proven = "under `%s`" % au.short(a.test, 60)
+                                break
+                    if isinstance(a, ast.IfExp) and rtxt in _naive_tests(a.test):
+                        proven = "under `%s`" % au.short(a.test, 60)
+                        break
+                    child = a
+                # (ii) freshly parsed from a zone-free format
+                if proven is None and isinstance(recv, ast.Name):
+                    ff = ff or ctx.flow(fn)
+                    ds = [d for d in ff.defs(recv.id, st)]
+                    if ds and all(d.kind == "assign" and d.value is not None and any(
+                            isinstance(x, ast.Call) and au.method_name(x) == "strptime" and len(x.args) == 2 and au.const_str(x.args[1]) is not None
+                            and "%z" not in au.const_str(x.args[1]).lower() for x in au.walk_local(d.value)) for d in ds):
+                        proven = "parsed from a zone-free string"
+                counts[my_rid] = counts.get(my_rid, 0) + 1
+                stripped = any(isinstance(x, ast.Call) and au.method_name(x) == "tz_localize" and x.args and au.is_none(x.args[0]) for x in au.walk_local(recv))
+                ctx.ob(my_rid, fn, au.short(n, 80), proven is not None,
+                       "%s gets the zone %s attached without being known naive here%s: for an aware value (a UTC datetime on a CET grid) "
+                       "tz_localize raises TypeError, and after stripping its zone the wall-clock reading is re-interpreted in the other "
+                       "zone, i.e. the instant shifts by the offset between the zones" % (
+                           au.short(recv, 50), au.short(zone, 30), " (its own zone is stripped first with tz_localize(None))" if stripped else ""),
+                       node=n, ok_detail=proven or "")
+                # ---- no zone-stripping conversion upstream of the value
+                srid = {"C20.h": "C20.i", "C19.g": "C19.h", "C15.g": "C15.h"}.get(my_rid)
+                if srid is None:
+                    continue
+                full = ctx.origins(fn).nodes(recv, st)
+                strips = [(fn, x, _strips_zone(x)) for x in full if _strips_zone(x)]
+                if fn.cls is not None:
+                    for x in full:
+                        if isinstance(x, ast.Attribute) and isinstance(x.value, ast.Name) and x.value.id == "self" and isinstance(x.ctx, ast.Load):
+                            strips.extend(_stored_strips(ctx, fn.cls, x.attr))
+                counts[srid] = counts.get(srid, 0) + 1
+                ctx.ob(srid, fn, "origin of %s" % au.short(recv, 50), not strips,
+                       "%s passes through %s%s before its zone is looked at: a zone-aware date given by the user arrives naive (in UTC), "
+                       "is then taken for a naive local date and gets the grid's zone attached - the instant shifts by the grid's UTC "
+                       "offset (an order 10:00-12:00 CET is executed 09:00-11:00)" % (
+                           au.short(recv, 40), strips[0][2] if strips else "", (" in %s line %s" % (strips[0][0].qualname, strips[0][1].lineno)) if strips else ""),
+                       node=(strips[0][1] if strips and strips[0][0] is fn else n))
+    return counts
+
+
+@analysis("intervals", ["C19.a", "C19.b", "C19.c", "C19.e", "C19.g", "C15.g", "C20.h", "C11.i", "C19.h", "C20.i", "C15.h"])
 def run(ctx):
     p = ctx.p
+    zc = _zone_cases(ctx)
+    ctx.require(sum(zc.values()) >= 5, "fewer than 5 zone attachments (tz_localize) found")
     n_a = n_e = 0
     for fn in sorted(p.all_functions(), key=lambda f: f.qualname):
         if fn.parent is not None:
@@ -163,6 +312,21 @@ def run(ctx):
         if tgt is None or tgt not in TIME_CARRIERS:
             continue
         srcs = [x for x in au.walk_local(val) if isinstance(x, ast.Subscript) and isinstance(x.value, ast.Attribute) and au.base_name(x.value) == ref]
+        # any other mention of a per-step attribute of the reference grid (its dtype, its length ...) and integer casts
+        mentions = {x.attr for x in au.walk_local(val) if isinstance(x, ast.Attribute) and x.attr in TIME_CARRIERS and isinstance(x.value, ast.Name)
+                    and x.value.id == ref}
+        casts = [k.value for c in au.walk_local(val) if isinstance(c, ast.Call) for k in c.keywords if k.arg == "dtype"] + \
+                [c.args[0] for c in au.walk_local(val) if isinstance(c, ast.Call) and au.method_name(c) == "astype" and c.args]
+        int_cast = [c for c in casts if any((isinstance(x, ast.Name) and x.id == "int") or (isinstance(x, ast.Attribute) and x.attr.startswith(("int", "uint")))
+                                            or (isinstance(x, ast.Constant) and isinstance(x.value, str) and x.value.startswith(("int", "uint", "i8", "i4")))
+                                            for x in au.walk_local(c))]
+        if tgt in ("dt", "Dt", "discount_factors") and (int_cast or (mentions - {tgt} and not srcs)):
+            n_c += 1
+            ctx.ob("C19.c", init, au.short(st, 80), False,
+                   "self.%s holds real numbers (step lengths / durations in main time units, discount factors) but is cast %s: a step of "
+                   "half a unit (30 min in 'h', a 23 h day in 'd') becomes 0" % (
+                       tgt, "to an integer type" if int_cast else "with a property of the reference grid's %s" % sorted(mentions - {tgt})), node=st)
+            continue
         if not srcs:
             # inside the reference branch every per-step attribute has to come from the reference grid (list initialisations,
             # np.asarray(self.x) conversions and the index itself - taken from ref.I a statement earlier - aside)
